@@ -3,10 +3,10 @@
 From V Require Import Corrupt.TxRecord Corrupt.HTreeBind Corrupt.Binding.
 From Coq Require Import ZifyN ZifyNat ZifyBool.
 
-Ltac inv_bind H :=
+Tactic Notation "inv_bind" hyp(H) "as" simple_intropattern(pat) "name" ident(E) :=
   match type of H with
   | bind ?r _ = Ok _ =>
-      let E := fresh "E" in destruct r as [?| |] eqn:E; cbn [bind] in H; [|discriminate H|discriminate H]
+      destruct r as [pat| |] eqn:E; cbn [bind] in H; [|discriminate H|discriminate H]
   end.
 
 Lemma fits_be_dec (b : bytes) k : bytes_ok b = true -> length b = k -> fits k (be_dec b).
@@ -23,40 +23,41 @@ Lemma read_header_inv ns s h s' :
   hdr_wf h /\ bytes_ok s' = true /\ h_nentries h <= ns /\ h_eh h = zero32.
 Proof.
   unfold read_header. intros R Hs.
-  inv_bind R. destruct p as [id s1].
+  inv_bind R as [id s1] name E.
   destruct (rd_uint_inv _ _ _ _ E Hs) as (Fid & Hs1 & _).
   destruct (id =? 0); [discriminate|].
-  inv_bind R. destruct p as [ts s2]. destruct (rd_uint_inv _ _ _ _ E0 Hs1) as (Fts & Hs2 & _).
-  inv_bind R. destruct p as [bl s3]. destruct (rd_uint_inv _ _ _ _ E1 Hs2) as (Fbl & Hs3 & _).
-  inv_bind R. destruct p as [blroot s4]. destruct (rd_ok_bytes _ _ _ _ E2 Hs3) as (_ & Hs4).
+  inv_bind R as [ts s2] name E0. destruct (rd_uint_inv _ _ _ _ E0 Hs1) as (Fts & Hs2 & _).
+  inv_bind R as [bl s3] name E1. destruct (rd_uint_inv _ _ _ _ E1 Hs2) as (Fbl & Hs3 & _).
+  inv_bind R as [blroot s4] name E2. destruct (rd_ok_bytes _ _ _ _ E2 Hs3) as (_ & Hs4).
   apply rd_inv in E2 as [_ Lbr].
-  inv_bind R. destruct p as [prevalh s5]. destruct (rd_ok_bytes _ _ _ _ E3 Hs4) as (_ & Hs5).
+  inv_bind R as [prevalh s5] name E3. destruct (rd_ok_bytes _ _ _ _ E3 Hs4) as (_ & Hs5).
   apply rd_inv in E3 as [_ Lpa].
-  inv_bind R. destruct p as [ver s6]. destruct (rd_uint_inv _ _ _ _ E4 Hs5) as (_ & Hs6 & _).
-  inv_bind R. destruct p as [[md ne] s7].
+  inv_bind R as [ver s6] name E4. destruct (rd_uint_inv _ _ _ _ E4 Hs5) as (_ & Hs6 & _).
+  inv_bind R as [[md ne] s7] name E5.
   assert (G : ((ver = 0 /\ fits 2 ne /\ opt_md_bytes md = []) \/ (ver = 1 /\ fits 4 ne)) /\ bytes_ok s7 = true).
   { destruct (N.eqb_spec ver 0) as [V0|_].
-    - inv_bind E5. destruct p as [ne0 s8]. destruct (rd_uint_inv _ _ _ _ E6 Hs6) as (Fne & Hs8 & _).
+    - inv_bind E5 as [ne0 s8] name E6. destruct (rd_uint_inv _ _ _ _ E6 Hs6) as (Fne & Hs8 & _).
       assert (md = None) by congruence. assert (ne = ne0) by congruence. assert (s7 = s8) by congruence.
       subst. split; auto.
     - destruct (N.eqb_spec ver 1) as [V1|_]; [|discriminate].
-      inv_bind E5. destruct p as [mdLen s8]. destruct (rd_uint_inv _ _ _ _ E6 Hs6) as (_ & Hs8 & _).
+      inv_bind E5 as [mdLen s8] name E6. destruct (rd_uint_inv _ _ _ _ E6 Hs6) as (_ & Hs8 & _).
       destruct (st_maxTxMetadataLen <? mdLen); [discriminate|].
-      inv_bind E5. destruct p as [md0 s9].
+      inv_bind E5 as [md0 s9] name E7.
       assert (Hs9 : bytes_ok s9 = true).
       { destruct (0 <? mdLen).
-        - inv_bind E7. inv_bind E7. destruct p as [b s10].
+        - inv_bind E7 as u name E8. inv_bind E7 as [b s10] name E9.
           destruct (rd_ok_bytes _ _ _ _ E9 Hs8) as (_ & Hs10).
-          inv_bind E7. congruence.
+          inv_bind E7 as m name E10. congruence.
         - congruence. }
-      inv_bind E5. destruct p as [ne0 s10]. destruct (rd_uint_inv _ _ _ _ E8 Hs9) as (Fne & Hs10 & _).
+      inv_bind E5 as [ne0 s10] name E8. destruct (rd_uint_inv _ _ _ _ E8 Hs9) as (Fne & Hs10 & _).
       assert (ne = ne0) by congruence. assert (s7 = s10) by congruence. subst. split; auto. }
   destruct G as [G Hs7].
   destruct (N.ltb_spec ns ne); [discriminate|].
   assert (Eh : h = {| h_id := id; h_prevalh := prevalh; h_ts := ts; h_version := ver; h_md := md;
                      h_nentries := ne; h_eh := zero32; h_bltxid := bl; h_blroot := blroot |}) by congruence.
   assert (s' = s7) by congruence. subst.
-  unfold hdr_wf; simpl. repeat split; auto; apply len_eq_length; assumption.
+  unfold hdr_wf; cbn [h_id h_ts h_bltxid h_prevalh h_blroot h_version h_nentries h_md h_eh].
+  repeat split; auto; unfold len in *; lia.
 Qed.
 
 Lemma read_entry_inv v mk s e d s' :
@@ -64,26 +65,26 @@ Lemma read_entry_inv v mk s e d s' :
   entry_wf e /\ bytes_ok s' = true /\ exists dd, d = Some dd /\ entry_digest H v e = Ok dd.
 Proof.
   unfold read_entry. intros R Hs.
-  inv_bind R. destruct p as [mdLen s1]. destruct (rd_uint_inv _ _ _ _ E Hs) as (_ & Hs1 & _).
-  inv_bind R. destruct p as [md s2].
+  inv_bind R as [mdLen s1] name E. destruct (rd_uint_inv _ _ _ _ E Hs) as (_ & Hs1 & _).
+  inv_bind R as [md s2] name E0.
   assert (Hs2 : bytes_ok s2 = true).
   { destruct (0 <? mdLen).
-    - inv_bind E0. destruct p as [b s3]. destruct (rd_ok_bytes _ _ _ _ E1 Hs1) as (_ & Hs3).
-      inv_bind E0. congruence.
+    - inv_bind E0 as [b s3] name E1. destruct (rd_ok_bytes _ _ _ _ E1 Hs1) as (_ & Hs3).
+      inv_bind E0 as m name E2. congruence.
     - congruence. }
-  inv_bind R. destruct p as [kLen s3]. destruct (rd_uint_inv _ _ _ _ E1 Hs2) as (Fk & Hs3 & _).
+  inv_bind R as [kLen s3] name E1. destruct (rd_uint_inv _ _ _ _ E1 Hs2) as (Fk & Hs3 & _).
   destruct (mk <? kLen); [discriminate|].
-  inv_bind R. inv_bind R. destruct p as [k s4]. destruct (rd_ok_bytes _ _ _ _ E3 Hs3) as (_ & Hs4).
+  inv_bind R as u name E2. inv_bind R as [k s4] name E3. destruct (rd_ok_bytes _ _ _ _ E3 Hs3) as (_ & Hs4).
   apply rd_inv in E3 as [_ Lk].
-  inv_bind R. destruct p as [vLen s5]. destruct (rd_uint_inv _ _ _ _ E4 Hs4) as (_ & Hs5 & _).
-  inv_bind R. destruct p as [vOff s6]. destruct (rd_uint_inv _ _ _ _ E5 Hs5) as (_ & Hs6 & _).
-  inv_bind R. destruct p as [hval s7]. destruct (rd_ok_bytes _ _ _ _ E6 Hs6) as (_ & Hs7).
+  inv_bind R as [vLen s5] name E4. destruct (rd_uint_inv _ _ _ _ E4 Hs4) as (_ & Hs5 & _).
+  inv_bind R as [vOff s6] name E5. destruct (rd_uint_inv _ _ _ _ E5 Hs5) as (_ & Hs6 & _).
+  inv_bind R as [hval s7] name E6. destruct (rd_ok_bytes _ _ _ _ E6 Hs6) as (_ & Hs7).
   apply rd_inv in E6 as [_ Lh].
-  inv_bind R.
+  inv_bind R as a0 name E7.
   assert (Ee : e = {| e_md := md; e_key := k; e_vlen := vLen; e_voff := vOff; e_hval := hval |}) by congruence.
   assert (d = Some a0) by congruence. assert (s' = s7) by congruence. subst.
   split; [|split; [exact Hs7|exists a0; split; [reflexivity | exact E7]]].
-  unfold entry_wf; simpl. split; [congruence | apply len_eq_length; exact Lh].
+  unfold entry_wf; cbn [e_key e_hval]. split; [congruence | unfold len in Lh; lia].
 Qed.
 
 Lemma read_entries_inv v mk ns : forall n i s es ds s',
@@ -94,15 +95,14 @@ Proof.
   - assert (es = []) by congruence. assert (ds = []) by congruence. assert (s' = s) by congruence.
     subst. repeat split; auto.
   - destruct (ns <=? i); [discriminate|].
-    inv_bind R. destruct p as [[e d] s1].
+    inv_bind R as [[e d] s1] name E.
     destruct (read_entry_inv _ _ _ _ _ _ E Hs) as (We & Hs1 & dd & -> & De).
-    inv_bind R. destruct p as [[es0 ds0] s2].
+    inv_bind R as [[es0 ds0] s2] name E0.
     destruct (IH _ _ _ _ _ E0 Hs1) as (Wes & Des & Les & Hs2).
     assert (es = e :: es0) by congruence. assert (ds = dd :: ds0) by congruence.
     assert (s' = s2) by congruence. subst.
-    repeat split; auto.
-    + simpl. rewrite De, Des. reflexivity.
-    + simpl. congruence.
+    split; [constructor; assumption|]. split; [|split; [simpl; congruence | exact Hs2]].
+    cbn [digests]. rewrite De, Des. reflexivity.
 Qed.
 
 Lemma hdr_wf_set_eh h eh : hdr_wf h -> hdr_wf (set_eh h eh).
@@ -115,14 +115,14 @@ Lemma read_tx_inv ns mk s t a rest :
   tx_wf H t /\ tx_alh H (t_hdr t) = Ok a.
 Proof.
   unfold read_tx. intros R Hs.
-  inv_bind R. destruct p as [h s1].
+  inv_bind R as [h s1] name E.
   destruct (read_header_inv _ _ _ _ E Hs) as (Wh & Hs1 & Hne & _).
-  inv_bind R. destruct p as [[es ds] s2].
+  inv_bind R as [[es ds] s2] name E0.
   destruct (read_entries_inv _ _ _ _ _ _ _ _ _ E0 Hs1) as (Wes & Des & Les & Hs2).
-  inv_bind R. destruct p as [alh s3].
+  inv_bind R as [alh s3] name E1.
   cbn [negb] in R.
   destruct (ns <? N.of_nat (length ds)); [discriminate|].
-  inv_bind R.
+  inv_bind R as a0 name E2.
   destruct (list_eq_dec N.eq_dec a0 alh) as [->|]; [|discriminate].
   assert (Et : t = {| t_hdr := set_eh h (htree_root H ds); t_entries := es |}) by congruence.
   assert (a = alh) by congruence. subst.
@@ -213,19 +213,19 @@ Proof.
   - destruct vs; [|discriminate]. simpl in E. left; congruence.
   - destruct vs as [|v vs]; [discriminate|]. simpl in Hh. injection Hh as Hv Hh.
     cbn [export_values] in E.
-    destruct (read_value_at H true mode txlog vlogs (e_vlen e) (e_voff e) (e_hval e)) as [v'|c|] eqn:R;
-      [| |discriminate].
-    + inv_bind E. destruct p as [t l0].
-      assert (t = false) by congruence. assert (l = v' :: l0) by congruence. subst.
+    destruct (read_value_at H true mode txlog vlogs (e_vlen e) (e_voff e) (e_hval e)) as [w|c|] eqn:R.
+    3: discriminate.
+    + inv_bind E as [t l0] name E0.
+      assert (t = false) by congruence. assert (l = w :: l0) by congruence. subst.
       apply read_value_at_ok in R as [_ R]. rewrite Hv in R.
       apply H_inj in R as [R|C]; [|right; exact C].
       destruct (IH vs _ _ Hh E0) as [->|C]; [left; congruence | right; exact C].
     + destruct (c =? EEOF); [|discriminate].
       destruct (negb false && (0 <? i)); [discriminate|].
-      inv_bind E. destruct p as [t l0]. exfalso.
+      inv_bind E as [t l0] name E0. exfalso.
       assert (Tr : forall es i l, export_values H true mode txlog vlogs es i true <> Ok (false, l)).
       { clear. induction es as [|e es IH]; intros i l; cbn [export_values]; [congruence|].
-        destruct (read_value_at H true mode txlog vlogs (e_vlen e) (e_voff e) (e_hval e)) as [v'|c|];
+        destruct (read_value_at H true mode txlog vlogs (e_vlen e) (e_voff e) (e_hval e)) as [w|c|];
           [discriminate| |discriminate].
         destruct (c =? EEOF); [|discriminate]. cbn [negb andb].
         destruct (export_values H true mode txlog vlogs es (i + 1) true) as [[t l0]| |] eqn:X;
@@ -235,3 +235,145 @@ Proof.
 Qed.
 
 End Hash.
+
+(* ---- the same statement in terms of the stored record: the reader consumes a prefix of the
+   stream that ends with the 32 bytes it compares the recomputed Alh with ---- *)
+Lemma rd_app n s b s' : rd n s = Ok (b, s') -> s = b ++ s'.
+Proof. intros E. apply rd_inv in E as [E _]. exact E. Qed.
+
+Lemma rd_uint_app k s v s' : rd_uint k s = Ok (v, s') -> exists b, s = b ++ s'.
+Proof.
+  unfold rd_uint. destruct (rd (N.of_nat k) s) as [[b s0]| |] eqn:E; cbn [bind]; try discriminate.
+  intros E2. assert (s' = s0) by congruence. subst. exists b. apply rd_app in E. exact E.
+Qed.
+
+Ltac chain_app :=
+  repeat match goal with
+  | H : rd_uint _ ?s = Ok (_, ?s') |- _ => apply rd_uint_app in H; destruct H as [? H]
+  | H : rd _ ?s = Ok (_, ?s') |- _ => apply rd_app in H
+  end.
+
+Lemma read_header_app ns s h s' : read_header ns s = Ok (h, s') -> exists p, s = p ++ s'.
+Proof.
+  unfold read_header. intros R.
+  inv_bind R as [id s1] name E. destruct (id =? 0); [discriminate|].
+  inv_bind R as [ts s2] name E0. inv_bind R as [bl s3] name E1.
+  inv_bind R as [blroot s4] name E2. inv_bind R as [prevalh s5] name E3.
+  inv_bind R as [ver s6] name E4. inv_bind R as [[md ne] s7] name E5.
+  destruct (ns <? ne); [discriminate|]. assert (s' = s7) by congruence. subst s7.
+  assert (G : exists p, s6 = p ++ s').
+  { destruct (ver =? 0).
+    - inv_bind E5 as [ne0 s8] name E6. assert (s' = s8) by congruence. subst. chain_app. eauto.
+    - destruct (ver =? 1); [|discriminate].
+      inv_bind E5 as [mdLen s8] name E6.
+      destruct (st_maxTxMetadataLen <? mdLen); [discriminate|].
+      inv_bind E5 as [md0 s9] name E7. inv_bind E5 as [ne0 s10] name E8.
+      assert (s' = s10) by congruence. subst.
+      assert (G : exists p, s8 = p ++ s9).
+      { destruct (0 <? mdLen).
+        - inv_bind E7 as u name E9. inv_bind E7 as [b s11] name E10. inv_bind E7 as m name E11.
+          assert (s9 = s11) by congruence. subst. chain_app. eauto.
+        - assert (s9 = s8) by congruence. subst. exists []. reflexivity. }
+      destruct G as [p1 ->]. chain_app. subst. eexists. rewrite !app_assoc. reflexivity. }
+  destruct G as [p6 ->]. chain_app. subst. eexists. rewrite !app_assoc. reflexivity.
+Qed.
+
+Section HashApp.
+Variable H : bytes -> bytes.
+
+Lemma read_entry_app chk v mk s r s' : read_entry H chk v mk s = Ok (r, s') -> exists p, s = p ++ s'.
+Proof.
+  unfold read_entry. intros R.
+  inv_bind R as [mdLen s1] name E. inv_bind R as [md s2] name E0.
+  assert (G : exists p, s1 = p ++ s2).
+  { destruct (0 <? mdLen).
+    - inv_bind E0 as [b s3] name E1. inv_bind E0 as m name E2.
+      assert (s2 = s3) by congruence. subst. chain_app. eauto.
+    - assert (s2 = s1) by congruence. subst. exists []. reflexivity. }
+  destruct G as [p1 ->].
+  inv_bind R as [kLen s3] name E1. destruct (mk <? kLen); [discriminate|].
+  inv_bind R as u name E2. inv_bind R as [k s4] name E3.
+  inv_bind R as [vLen s5] name E4. inv_bind R as [vOff s6] name E5.
+  inv_bind R as [hval s7] name E6.
+  assert (s' = s7).
+  { destruct chk; [inv_bind R as d name E7|]; congruence. }
+  subst. chain_app. subst. eexists. rewrite !app_assoc. reflexivity.
+Qed.
+
+Lemma read_entries_app chk v mk ns : forall n i s r s',
+  read_entries H chk v mk ns n i s = Ok (r, s') -> exists p, s = p ++ s'.
+Proof.
+  induction n as [|n IH]; intros i s r s' R; cbn [read_entries] in R.
+  - assert (s' = s) by congruence. subst. exists []. reflexivity.
+  - destruct (ns <=? i); [discriminate|].
+    inv_bind R as [[e d] s1] name E. inv_bind R as [[es0 ds0] s2] name E0.
+    assert (s' = s2) by congruence. subst.
+    apply read_entry_app in E as [p1 ->]. apply IH in E0 as [p2 ->].
+    eexists. rewrite app_assoc. reflexivity.
+Qed.
+
+Lemma read_tx_app chk ns mk s t a rest :
+  read_tx H chk ns mk s = Ok (t, a, rest) -> exists p, s = p ++ a ++ rest.
+Proof.
+  unfold read_tx. intros R.
+  inv_bind R as [h s1] name E. inv_bind R as [[es ds] s2] name E0.
+  inv_bind R as [alh s3] name E1.
+  assert (G : a = alh /\ rest = s3).
+  { destruct (negb chk); [split; congruence|].
+    destruct (ns <? _); [discriminate|]. inv_bind R as a0 name E2.
+    destruct (list_eq_dec N.eq_dec a0 alh); [split; congruence | discriminate]. }
+  destruct G as [-> ->].
+  apply read_header_app in E as [p1 ->]. apply read_entries_app in E0 as [p2 ->].
+  apply rd_app in E1. subst. eexists. rewrite !app_assoc. reflexivity.
+Qed.
+
+End HashApp.
+
+Section HashRec.
+Variable H : bytes -> bytes.
+Hypothesis H_len : forall x, length (H x) = 32%nat.
+
+Lemma skipn_app_exact {A} (p a : list A) : skipn (length (p ++ a) - length a) (p ++ a) = a.
+Proof.
+  rewrite app_length. replace (length p + length a - length a)%nat with (length p) by lia.
+  rewrite skipn_app, Nat.sub_diag, skipn_all. reflexivity.
+Qed.
+
+(* the record of a committed transaction t, any bytes rec' of the same length whose LAST 32 BYTES
+   (the stored Alh) are those of the record, followed by anything: if the integrity-checked read
+   consumes exactly rec' and succeeds, everything that is hashed is the committed content *)
+Theorem corrupt_tx_detected_partial_record t rec :
+  tx_wf H t -> write_tx H t = Ok rec ->
+  forall rec' rest ns mk t' a,
+    length rec' = length rec ->
+    skipn (length rec - 32) rec' = skipn (length rec - 32) rec ->
+    bytes_ok (rec' ++ rest) = true ->
+    read_tx H true ns mk (rec' ++ rest) = Ok (t', a, rest) ->
+    same_hashed t t' \/ Collision H.
+Proof.
+  intros W Wr rec' rest ns mk t' a L Tr Hs R.
+  unfold write_tx in Wr.
+  destruct (write_hdr (t_hdr t)) as [hb| |]; cbn [bind] in Wr; try discriminate.
+  destruct (tx_alh H (t_hdr t)) as [at_| |] eqn:A; cbn [bind] in Wr; try discriminate.
+  assert (La : length at_ = 32%nat).
+  { unfold tx_alh in A. destruct (inner_bytes (t_hdr t)) as [ib| |]; cbn [bind] in A; try discriminate.
+    assert (at_ = H (alh_bytes (t_hdr t) (H ib))) by congruence. subst. apply H_len. }
+  assert (Er : rec = (hb ++ concat (map write_entry (t_entries t))) ++ at_).
+  { rewrite <- app_assoc. congruence. }
+  destruct (read_tx_app _ _ _ _ _ _ _ _ R) as [p Ep].
+  rewrite app_assoc in Ep. apply app_inv_tail in Ep.
+  destruct (read_tx_inv H H_len ns mk _ _ _ _ R Hs) as (W' & A').
+  assert (La' : length a = 32%nat).
+  { unfold tx_alh in A'. destruct (inner_bytes (t_hdr t')) as [ib| |]; cbn [bind] in A'; try discriminate.
+    assert (a = H (alh_bytes (t_hdr t') (H ib))) by congruence. subst. apply H_len. }
+  assert (a = at_).
+  { rewrite Ep, Er in Tr.
+    assert (X1 := skipn_app_exact p a). assert (X2 := skipn_app_exact (hb ++ concat (map write_entry (t_entries t))) at_).
+    rewrite La' in X1. rewrite La in X2.
+    rewrite <- Er in X2. rewrite <- Ep in X1. rewrite L in X1.
+    rewrite <- Er, <- Ep in Tr. congruence. }
+  subst at_.
+  exact (alh_binding H H_len t t' a W W' A A').
+Qed.
+
+End HashRec.
